@@ -3,7 +3,7 @@
    The theorems are about the model Model/CIDict.v of pybtex/utils.py:80-379 for an ABSTRACT key type K
    with a boolean equality `keqb` that decides equality and a case-lowering `lower`; where the proof
    needs it, `lower` is assumed idempotent.  The reference map is Spec/CIMap.v, the relating
-   vocabulary (abs, lockstep, reachable, cls_ok, ops_ok) Spec/CIRel.v.  `str_instance_eq_ok` / `str_instance_lower_idem` show that the
+   vocabulary (abs, lockstep, reachable, cls_ok) Spec/CIRel.v.  `str_instance_eq_ok` / `str_instance_lower_idem` show that the
    extracted instance (Python str with the ASCII case mapping) meets both hypotheses. *)
 From Pybtex Require Import Base.Prelude Base.PyChar Base.PyStr Model.CIDict Model.CIDictStr
   Spec.CIMap Spec.CIRel Proofs.CIDict Proofs.CIDictFindings Proofs.CISet.
@@ -31,70 +31,48 @@ Print Assumptions lockstep_inv.
    constructor argument, every sequence of operations (setitem getitem delitem contains get pop popitem
    setdefault update clear lower) and every list of probe keys: the results of all operations and the
    observations after each of them (iteration, items, len, repr data, `p in c`, c[p]) are those of the
-   reference map started from the insertion, in order, of the constructor's (dict-de-duplicated) pairs. *)
+   reference map started from the insertion, in order, of the constructor's pairs. *)
 Theorem run_refines : forall (K V : Type) (keqb : K -> K -> bool) (lower : K -> K),
   (forall a b : K, reflect (a = b) (keqb a b)) ->
   (forall k : K, lower (lower k) = lower k) ->
   forall (cl : cls) (pairs : list (K * V)) (probes : list K) (ops : list (op K V)),
   cl <> ClsDefault ->
   run K V keqb lower probes (ci_init K V keqb lower cl pairs) ops =
-  spec_run K V keqb lower None probes (sm_update K V keqb lower [] (py_dict K keqb pairs)) ops.
+  spec_run K V keqb lower None probes (sm_update K V keqb lower [] pairs) ops.
 Proof. exact Proofs.CIDict.run_refines. Qed.
 Print Assumptions run_refines.
 
-(* The constructor is the sequence of insertions of its pairs when no key occurs twice in the same
-   spelling.  Full statement (refuted, finding C13-F3): for all pairs,
-   abs (ci_init cl pairs) = sm_update [] pairs. *)
-Theorem init_refines_partial : forall (K V : Type) (keqb : K -> K -> bool) (lower : K -> K),
+(* The constructor is the sequence of insertions of its pairs, for every list of pairs
+   (was refuted before fix ff4cc51: finding C13-F3). *)
+Theorem init_refines : forall (K V : Type) (keqb : K -> K -> bool) (lower : K -> K),
   (forall a b : K, reflect (a = b) (keqb a b)) ->
-  forall (cl : cls) (pairs : list (K * V)), NoDup (map fst pairs) ->
+  forall (cl : cls) (pairs : list (K * V)),
   abs K V (ci_init K V keqb lower cl pairs) = sm_update K V keqb lower [] pairs.
-Proof. exact Proofs.CIDict.init_refines_partial. Qed.
-Print Assumptions init_refines_partial.
-Theorem init_refuted :
-  let pairs := [(s2l "a", 1%Z); (s2l "A", 2%Z); (s2l "a", 3%Z)] in
-  abs str Z (ci_init str Z str_eqb lower ClsPlain pairs) = [(s2l "a", (s2l "A", 2%Z))] /\
-  sm_update str Z str_eqb lower [] pairs = [(s2l "a", (s2l "a", 3%Z))].
-Proof. exact init_not_sequential. Qed.
-Print Assumptions init_refuted.
+Proof. exact Proofs.CIDict.init_refines. Qed.
+Print Assumptions init_refines.
 
-(* The defaulting variant (CaseInsensitiveDefaultDict with a factory returning d0) refines the reference
-   map "with default d0" on every history that avoids lower() and get-with-default / setdefault /
-   pop-with-default of a then-absent key (ops_ok).  Full statement (refuted, findings C13-F1, C13-F2): the
-   same for every history. *)
-Theorem default_run_refines_partial : forall (K V : Type) (keqb : K -> K -> bool) (lower : K -> K),
+(* The defaulting variant (CaseInsensitiveDefaultDict with a factory returning d0): EVERY history -- lower(), pop
+   with and without default, get, setdefault, update, clear ... -- refines the reference map "with default d0"
+   (c[k] and get(k, d) of an absent key yield d0 and do not insert; everything else as the plain map): all
+   results and all observations, by induction over the operation list.
+   (Was refuted before the fix commits 53376a7 and 849b0be: findings C13-F1, C13-F2, C13-F4.) *)
+Theorem default_run_refines : forall (K V : Type) (keqb : K -> K -> bool) (lower : K -> K),
   (forall a b : K, reflect (a = b) (keqb a b)) ->
   (forall k : K, lower (lower k) = lower k) ->
   forall (d0 : V) (probes : list K) (ops : list (op K V)),
-  ops_ok K V keqb lower (Some d0) [] ops = true ->
   run K V keqb lower probes (default_init K V (FacVal d0)) ops =
   spec_run K V keqb lower (Some d0) probes [] ops.
-Proof. exact Proofs.CIDict.default_run_refines_partial. Qed.
-Print Assumptions default_run_refines_partial.
-(* C13-F1: lower() of the defaulting variant loses every entry and breaks the default *)
-Theorem default_lower_refuted :
-  exists (c : scid) ops, c = s_init ClsDefault 0 [] /\
-    ops = [OSet (s2l "A") 1%Z; OLower] /\
-    let c' := run_state str Z str_eqb lower c ops in
-    ci_len str Z c' = 0 /\ ci_len str Z (run_state str Z str_eqb lower c [OSet (s2l "A") 1%Z]) = 1 /\
-    ci_getitem str Z str_eqb lower c' (s2l "b") = EExn TypeError.
-Proof. exact default_lower_loses_entries. Qed.
-Print Assumptions default_lower_refuted.
-(* C13-F2: pop(absent, default) of the defaulting variant raises KeyError where the reference map returns the default *)
-Theorem default_pop_default_refuted :
-  let c := s_init ClsDefault 0 [] in
-  snd (s_step c (OPop (s2l "x") (Some 9%Z))) = EExn KeyError /\
-  snd (spec_step str Z str_eqb lower (Some 0%Z) (abs str Z c) (OPop (s2l "x") (Some 9%Z))) = EOk (RVal 9%Z).
-Proof. exact default_pop_default_raises. Qed.
-Print Assumptions default_pop_default_refuted.
-(* ... and in general: in the defaulting variant pop of an absent key always raises KeyError *)
-Theorem default_pop_absent_raises : forall (K V : Type) (keqb : K -> K -> bool) (lower : K -> K),
+Proof. exact Proofs.CIDict.default_run_refines. Qed.
+Print Assumptions default_run_refines.
+
+(* every reachable container (any class, any history) has a consistent class / default pairing: the
+   hypothesis `cls_ok c dflt` of the corollaries below is satisfiable in every reachable state *)
+Theorem reachable_cls_ok : forall (K V : Type) (keqb : K -> K -> bool) (lower : K -> K),
   (forall a b : K, reflect (a = b) (keqb a b)) ->
-  forall (c : cid K V) (k : K) (d : option V) (d0 : V),
-  reachable K V keqb lower c -> cls_ok K V c (Some d0) -> ci_contains K V keqb lower c k = false ->
-  step K V keqb lower c (OPop k d) = (c, EExn KeyError).
-Proof. exact default_pop_absent_raises_r. Qed.
-Print Assumptions default_pop_absent_raises.
+  (forall k : K, lower (lower k) = lower k) ->
+  forall c : cid K V, reachable K V keqb lower c -> exists dflt, cls_ok K V c dflt.
+Proof. exact Proofs.CIDict.reachable_cls_ok. Qed.
+Print Assumptions reachable_cls_ok.
 
 (* ---- the property's words, as corollaries about reachable states ---- *)
 
@@ -152,12 +130,12 @@ Theorem delete_exactly_that_key : forall (K V : Type) (keqb : K -> K -> bool) (l
 Proof. exact delete_exactly_that_key_r. Qed.
 Print Assumptions delete_exactly_that_key.
 
-(* case-lowering (plain and ordered class): same order, same values, same length, same lookups;
+(* case-lowering (all three classes): same order, same values, same length, same lookups;
    only the spellings are lower-cased *)
 Theorem lower_lowers_keys_only : forall (K V : Type) (keqb : K -> K -> bool) (lower : K -> K),
   (forall a b : K, reflect (a = b) (keqb a b)) ->
   (forall k : K, lower (lower k) = lower k) ->
-  forall c : cid K V, reachable K V keqb lower c -> cls_ok K V c None ->
+  forall (c : cid K V) (dflt : option V), reachable K V keqb lower c -> cls_ok K V c dflt ->
   exists (c' : cid K V) (its : list (K * V)),
     step K V keqb lower c OLower = (c', EOk RNone) /\ ci_items K V keqb lower c = EOk its /\
     ci_items K V keqb lower c' = EOk (map (fun p => (lower (fst p), snd p)) its) /\
@@ -175,29 +153,24 @@ Theorem default_no_insert : forall (K V : Type) (keqb : K -> K -> bool) (lower :
   step K V keqb lower c (OGet k) = (c, EOk (RVal d0)).
 Proof. exact default_no_insert_r. Qed.
 Print Assumptions default_no_insert.
-(* ... and so do its get(k, d) and setdefault(k, x): both yield the factory's default, neither inserts
-   (the reading of "yields its default for absent keys without inserting them" that the check accepts) *)
-Theorem default_get_setdefault_no_insert : forall (K V : Type) (keqb : K -> K -> bool) (lower : K -> K),
+(* ... and so does its get(k, d): it yields the factory's default (not d) and does not insert
+   ("yields its default for absent keys without inserting them") *)
+Theorem default_get_no_insert : forall (K V : Type) (keqb : K -> K -> bool) (lower : K -> K),
   (forall a b : K, reflect (a = b) (keqb a b)) ->
   forall (c : cid K V) (k : K) (d : option V) (d0 : V),
   reachable K V keqb lower c -> cls_ok K V c (Some d0) -> ci_contains K V keqb lower c k = false ->
-  step K V keqb lower c (OGetD k d) = (c, EOk (RVal d0)) /\
-  (forall x : V, step K V keqb lower c (OSetdefault k x) = (c, EOk (RVal d0))).
-Proof. exact default_get_setdefault_no_insert_r. Qed.
-Print Assumptions default_get_setdefault_no_insert.
-
-(* The defaulting variant on EVERY history without lower(): it is the reference map with default d0 except
-   that get(k, d) / setdefault(k, x) of an absent key yield d0 without inserting and pop of an absent key raises
-   KeyError even with a default (Spec/CIMap.dspec_step) -- all results and all observations, by induction over
-   the operation list. *)
-Theorem default_run_refines_quirks : forall (K V : Type) (keqb : K -> K -> bool) (lower : K -> K),
+  step K V keqb lower c (OGetD k d) = (c, EOk (RVal d0)).
+Proof. exact default_get_no_insert_r. Qed.
+Print Assumptions default_get_no_insert.
+(* ... while setdefault(k, x) of an absent key inserts x and returns it, in all three classes *)
+Theorem setdefault_absent_inserts : forall (K V : Type) (keqb : K -> K -> bool) (lower : K -> K),
   (forall a b : K, reflect (a = b) (keqb a b)) ->
   (forall k : K, lower (lower k) = lower k) ->
-  forall (d0 : V) (probes : list K) (ops : list (op K V)),
-  existsb (is_lower_op K V) ops = false ->
-  run K V keqb lower probes (default_init K V (FacVal d0)) ops = dspec_run K V keqb lower d0 probes [] ops.
-Proof. exact Proofs.CIDict.default_run_refines_quirks. Qed.
-Print Assumptions default_run_refines_quirks.
+  forall (c : cid K V) (k : K) (x : V) (dflt : option V),
+  reachable K V keqb lower c -> cls_ok K V c dflt -> ci_contains K V keqb lower c k = false ->
+  step K V keqb lower c (OSetdefault k x) = (ci_setitem K V keqb lower c k x, EOk (RVal x)).
+Proof. exact setdefault_absent_inserts_r. Qed.
+Print Assumptions setdefault_absent_inserts.
 
 (* ---- CaseInsensitiveSet ---- *)
 
@@ -262,15 +235,27 @@ Example ex_state :
   ci_items str Z str_eqb lower ex_c = EOk [(s2l "UNO", 7%Z); (s2l "dos", 5%Z); (s2l "Tres", 3%Z)] /\
   ci_contains str Z str_eqb lower ex_c (s2l "tRES") = true /\ ci_contains str Z str_eqb lower ex_c (s2l "x") = false.
 Proof. vm_compute. auto. Qed.
-(* a reachable defaulting container, a history inside ops_ok, an absent key *)
-Definition ex_dops : list (op str Z) := [OGet (s2l "a"); OSet (s2l "a") 1%Z; OGet (s2l "A"); OSet (s2l "B") 10%Z; OPop (s2l "A") None; OGetD (s2l "b") (Some 4%Z)].
+(* a reachable defaulting container and an absent key *)
+Definition ex_dops : list (op str Z) := [OGet (s2l "a"); OSet (s2l "a") 1%Z; OGet (s2l "A"); OSet (s2l "B") 10%Z; OPop (s2l "A") None; OGetD (s2l "zz") (Some 4%Z); OPop (s2l "zz") (Some 1%Z); OLower; OSetdefault (s2l "b") 2%Z; OSetdefault (s2l "q") 3%Z; ODel (s2l "Q")].
 Example ex_default :
-  ops_ok str Z str_eqb lower (Some 0%Z) [] ex_dops = true /\
   let c := run_state str Z str_eqb lower (default_init str Z (FacVal 0%Z)) ex_dops in
   cls_ok str Z c (Some 0%Z) /\ ci_contains str Z str_eqb lower c (s2l "a") = false /\
-  ci_items str Z str_eqb lower c = EOk [(s2l "B", 10%Z)].
+  ci_items str Z str_eqb lower c = EOk [(s2l "b", 10%Z)].
 Proof. vm_compute. auto. Qed.
-Example ex_no_lower : existsb (is_lower_op str Z) (ex_dops ++ [OPop (s2l "zz") (Some 1%Z); OSetdefault (s2l "q") 2%Z]) = false.
-Proof. reflexivity. Qed.
-Example ex_nodup_pairs : NoDup (map fst [(s2l "a", 1%Z); (s2l "A", 2%Z)]).
-Proof. repeat constructor; cbn; intuition discriminate. Qed.
+(* the inputs of the repaired findings C13-F1 .. C13-F4 now behave like the reference map *)
+Example ex_f1_regression :
+  let c := run_state str Z str_eqb lower (s_init ClsDefault 0 []) [OSet (s2l "A") 1%Z; OLower] in
+  ci_items str Z str_eqb lower c = EOk [(s2l "a", 1%Z)] /\ ci_getitem str Z str_eqb lower c (s2l "b") = EOk 0%Z.
+Proof. exact f1_regression. Qed.
+Example ex_f2_regression :
+  s_step (s_init ClsDefault 0 []) (OPop (s2l "x") (Some 9%Z)) = (s_init ClsDefault 0 [], EOk (RVal 9%Z)).
+Proof. exact f2_regression. Qed.
+Example ex_f4_regression :
+  let c := s_init ClsDefault 0 [] in
+  s_step c (OSetdefault (s2l "k") 5%Z) = (ci_setitem str Z str_eqb lower c (s2l "k") 5%Z, EOk (RVal 5%Z)) /\
+  spec_step str Z str_eqb lower (Some 0%Z) (abs str Z c) (OSetdefault (s2l "k") 5%Z) =
+    ([(s2l "k", (s2l "k", 5%Z))], EOk (RVal 5%Z)).
+Proof. exact f4_regression. Qed.
+Example ex_f3_regression :
+  abs str Z (ci_init str Z str_eqb lower ClsPlain [(s2l "a", 1%Z); (s2l "A", 2%Z); (s2l "a", 3%Z)]) = [(s2l "a", (s2l "a", 3%Z))].
+Proof. exact f3_regression. Qed.
